@@ -3,13 +3,15 @@
    public method of valid objects called with in-range and boundary arguments (property C19). *)
 EXTENDS Validity, ParentAlg, Json, IOUtils, TLC
 Trace == ndJsonDeserialize(IOEnv.TRACE_FILE)
-(* ["ctor", class, kind, args, outcome] *)
+(* ["ctor", class, kind, args, outcome, again] : again = the outcomes of the SAME construction attempted again (right
+   away, and once more after an unrelated valid construction): a refusal does not wear off *)
 VCtor(ev) ==
-  LET cls == ev[2] a == ev[4] o == ev[5] IN
+  LET cls == ev[2] a == ev[4] o == ev[5] again == IF Len(ev) >= 6 THEN ev[6] ELSE <<>> IN
   IF cls \notin Classes THEN "ctor:unknown-class"
-  ELSE IF InternalExc(o) THEN "ctor:internal-error"
+  ELSE IF InternalExc(o) \/ \E i \in DOMAIN again : InternalExc(again[i]) THEN "ctor:internal-error"
   ELSE IF Valid(cls, a) THEN "ok"                                 \* a value or a documented rejection
   ELSE IF IsVal(o) THEN "ctor:built-from-invalid-input"
+  ELSE IF \E i \in DOMAIN again : IsVal(again[i]) THEN "ctor:refusal-not-repeatable"
   ELSE "ok"
 (* ["call", kind, method, args, outcome] : well-typed in-range / boundary arguments; TypeError is not expected here *)
 VCall(ev) ==
